@@ -13,6 +13,7 @@ mod c06;
 mod c10;
 mod c12;
 mod c13;
+mod c14;
 mod c15;
 mod c17;
 mod c18;
@@ -78,6 +79,7 @@ fn main() {
     "C10" => c10::run(&ctx),
     "C12" => c12::run(&ctx),
     "C13" => c13::run(&ctx),
+    "C14" => c14::run(&ctx),
     "C15" => c15::run(&ctx),
     "C17" => c17::run(&ctx),
     "C18" => c18::run(&ctx),
